@@ -19,6 +19,7 @@ type hsConfig struct {
 	Corner string      `json:"corner,omitempty"` // nonce|server_nonce|new_nonce|hash1|rsa|g_a|g_b|g_ab|pq_big|pq_small|""
 	LZ     int         `json:"lz,omitempty"`     // number of leading zero bytes to force
 	Lie    *refsrv.Lie `json:"lie,omitempty"`
+	Retry  bool        `json:"retry,omitempty"` // after an abandoned exchange, connect the same client object again (server conformant by then)
 }
 
 func leadingZeros(b []byte, width int) int {
@@ -154,4 +155,11 @@ func (r *runner) installHandshake(h *hsConfig) ev {
 	r.srv.HS.Lie = h.Lie
 	r.srv.HS.PadByte = byte(rng.Intn(256))
 	return desc
+}
+
+// clearHandshakeForcing: from now on both sides draw their own values and the server is conformant
+func (r *runner) clearHandshakeForcing() {
+	r.srv.HS.Lie, r.srv.HS.ServerNonce, r.srv.HS.A, r.srv.HS.PQ = nil, nil, nil, nil
+	r.hsGate = nil
+	imath.VerifDraw = nil
 }
